@@ -307,6 +307,48 @@ fn big_modules() -> Vec<(String, Box<dyn Fn() -> dr::Module + Sync + Send>)> {
             m
         })));
     }
+    // instructions at and beyond the largest size one instruction can have (strings of 262 100 .. 300 000 bytes in every
+    // string-carrying opcode, with and without the optional operands in front of the string): the module's assembly is the
+    // concatenation of what each visited instruction assembles to, whatever that is
+    for n in [262_100usize, 262_120, 262_124, 262_128, 262_132, 262_136, 262_140, 262_144, 300_000] {
+        out.push((format!("big: strings of {} bytes in every string-carrying opcode", n), Box::new(move || {
+            let g = crate::golden::golden();
+            let mut id = 0u32;
+            let mut m = dr::Module::new();
+            for gi in &g.insts {
+                if !gi.value_operands().iter().any(|(k, _)| k == "LiteralString") {
+                    continue;
+                }
+                for base in [crate::universe::minimal(gi), crate::universe::fullest(gi)] {
+                    let mut i = base.clone();
+                    for a in i.args.iter_mut() {
+                        if let crate::model::Arg::Str(t) = a {
+                            *t = "s".repeat(n);
+                        }
+                    }
+                    if let Some(mut d) = crate::model::to_dr(&i) {
+                        id += 1;
+                        d.result_id = Some(id);
+                        match crate::universe::class_of(&gi.name) {
+                            crate::universe::Class::Module(sec) => match sec {
+                                1 => m.extensions.push(d),
+                                2 => m.ext_inst_imports.push(d),
+                                4 => m.entry_points.push(d),
+                                6 => m.debug_string_source.push(d),
+                                7 => m.debug_names.push(d),
+                                8 => m.debug_module_processed.push(d),
+                                9 => m.annotations.push(d),
+                                _ => m.types_global_values.push(d),
+                            },
+                            _ => m.types_global_values.push(d),
+                        }
+                    }
+                }
+            }
+            m.header = Some(dr::ModuleHeader::new(id + 1));
+            m
+        })));
+    }
     // "linked" modules: three functions with distinct result ids, each with or without a body; capabilities any subset of
     // {Linkage, Shader, Kernel}; a linkage decoration (Import / Export), a name and an entry point whose target is the
     // result id of none / one / each of the functions. Every instruction carries a unique result id (the order tag); the
@@ -513,6 +555,15 @@ fn check_module(make: &dyn Fn() -> dr::Module, label: &str, rep: serde_json::Val
         let again = m.assemble();
         let mut appended = vec![0xAAAA_AAAA, 0xBBBB_BBBB];
         m.assemble_into(&mut appended);
+        // into buffers with (much) more spare capacity than the module needs, and into a buffer used before
+        let mut roomy: Vec<u32> = Vec::with_capacity(asm.len() * 2 + 1024);
+        m.assemble_into(&mut roomy);
+        let mut reused: Vec<u32> = vec![1; asm.len() + 77];
+        reused.clear();
+        m.assemble_into(&mut reused);
+        if roomy != asm || reused != asm {
+            bad.push(("assemble".into(), "assemble_into() a buffer with spare capacity / a cleared, previously used buffer differs from assemble()".into()));
+        }
         if again != asm || appended[..2] != [0xAAAA_AAAA, 0xBBBB_BBBB] || appended[2..] != asm[..] {
             bad.push(("assemble".into(), "a second assemble() / assemble_into() on a non-empty vector differs from the first assemble()".into()));
         }
